@@ -150,6 +150,14 @@ pub fn workers() -> usize {
         .max(1)
 }
 
+/// (stride, shard) from VERIF_STRIDE / VERIF_SHARD: run only the cases whose hashed index falls
+/// into this shard (default: everything)
+pub fn stride() -> (u64, u64) {
+    let k = std::env::var("VERIF_STRIDE").ok().and_then(|v| v.parse::<u64>().ok()).unwrap_or(1).max(1);
+    let s = std::env::var("VERIF_SHARD").ok().and_then(|v| v.parse::<u64>().ok()).unwrap_or(0) % k;
+    (k, s)
+}
+
 /// Tells a worker whether its thread must be retired (fresh thread-locals) before continuing.
 #[derive(PartialEq, Eq, Clone, Copy)]
 pub enum After {
@@ -175,6 +183,9 @@ where
 {
     let next = AtomicU64::new(0);
     let done = AtomicU64::new(0);
+    // sanitizer stages (Miri, ASan) run the same checks on every k-th case only
+    let (stride, shard) = stride();
+    let n = if stride > 1 { n.min(workers()) } else { n };
     std::thread::scope(|s| {
         for _ in 0..n {
             s.spawn(|| {
@@ -193,6 +204,9 @@ where
                                     let i = next.fetch_add(1, Ordering::Relaxed);
                                     if i >= total {
                                         return true;
+                                    }
+                                    if stride > 1 && splitmix(&mut i.clone()) % stride != shard {
+                                        continue;
                                     }
                                     let r = f(i);
                                     done.fetch_add(1, Ordering::Relaxed);
